@@ -100,6 +100,22 @@ static void c05_gen(plan_t *p, rng_t *r, int tier) {
 			if (faulty) maybe_fault(op, r, 300, 20);
 		}
 	}
+	/* stray bytes in a queue (a fault of the environment, not of the senders): the reader must resynchronise */
+	if (rng_chance(r, 140)) {
+		int nj = 1 + (int)rng_below(r, 3);
+		item_set(&p->cfg, "track", 1);
+		for (int j = 0; j < nj && p->nops < PLAN_MAX_OPS; j++) {
+			op_t *op = plan_add_op(p, "junk");
+			int pool = (two_pools && rng_chance(r, 200)) ? 1 : 0;
+			item_set(&op->it, "actor", (long long)rng_below(r, (uint64_t)actors));
+			item_set(&op->it, "pool", pool);
+			item_set(&op->it, "dst", pick_dst(r, pool ? n2 : n, 150));
+			item_set(&op->it, "k", (long long)rng_range(r, 1, 31));
+			item_set(&op->it, "how", (long long)rng_below(r, 2));
+			/* somewhere inside the traffic: swap with a random earlier op */
+			if (p->nops > 1) { int at = (int)rng_below(r, (uint64_t)p->nops); op_t tmp = p->ops[at]; p->ops[at] = p->ops[p->nops - 1]; p->ops[p->nops - 1] = tmp; }
+		}
+	}
 	item_set(&p->sched, "budget", 80000 + 40 * total_msgs);
 }
 
@@ -132,6 +148,10 @@ static void c05_exec(const op_t *op, int opidx) {
 			msg_rec *m = world_new_msg(opidx, MK_PLAIN, pool, dst, (uint32_t)item_get(it, "flags", 0));
 			world_send(m, NULL);
 		}
+	} else if (0 == strcmp(it->kind, "junk")) {
+		int dst = (int)item_get(it, "dst", 0);
+		if (dst >= pw->n) dst = pw->n - 1;
+		world_queue_junk(pool, dst, (int)item_get(it, "k", 8), (int)item_get(it, "how", 0));
 	} else if (0 == strcmp(it->kind, "wait")) {
 		sim_sleep_ns((uint64_t)item_get(it, "ns", 1000), "actor.wait");
 	}
@@ -180,6 +200,7 @@ static void *c05_root(void *arg) {
 		extern void sim_fault_add(int op, const char *site, int nth, int count, int err);
 		if (cf > 0) sim_fault_add(-2, "pthread_create", cf, 1, EPERM);
 	}
+	if (item_get(&p->cfg, "track", 0) || 1) { world_track_queues(0); if (n2 > 0) world_track_queues(1); }
 	world_start_threads(0, (int)item_get(&p->cfg, "skipfirst", 0));
 	if (n2 > 0) world_start_threads(1, 0);
 	if (item_get(&p->cfg, "waitstart", 0)) { world_wait_threads_running(0); if (n2 > 0) world_wait_threads_running(1); }
@@ -199,6 +220,7 @@ static void *c05_root(void *arg) {
 		pool_w *pw = &W.pool[0];
 		int probed[MAX_THR] = { 0 }, left;
 		W.slow_stop_hook_ns = 200000;
+		W.stop_hook_selfsend = 1 + (int)(p->seed & 2);
 		tp_shutdown(pw->tp);
 		for (int round = 0; round < 400 && !sim_violated(); round++) {
 			left = 0;
